@@ -32,6 +32,7 @@ CONSTANTS M,          \* MAX_OPINION_PAGE_COUNT (150 in the code)
 
 NoPage  == -1
 NoGroup == -2
+NonNumeric == -3      \* a page group that is not a number (e.g. "95,342"): identified by its text in `id`
 NoPin   == -1
 BadPin  == -2
 NoName  == "-"
@@ -54,6 +55,7 @@ core == <<fulls, last, nph>>        \* VIEW for model checking: observations hid
 ResourceOf(c, n) ==
     IF c.k = "fc"
     THEN IF c.pg = NoPage THEN <<"ph", "", n + 1>>      \* hash by identity: fresh
+                          ELSE IF c.pg = NonNumeric THEN <<"fc", c.rv \o "#" \o c.id, c.pg>>
                           ELSE <<"fc", c.rv, c.pg>>     \* volume, reporter, page
     ELSE <<c.k, c.id, c.pg>>                            \* all groups + editions
 
@@ -85,7 +87,7 @@ ResolveRef(c) == IF c.nm = {} THEN NoRes ELSE One(RefMatches(c))
 InvalidPin(r, c) ==
     IF HeadPage(r) = NoPage THEN <<TRUE, "none">>               \* known missing page (any kind)
     ELSE IF c.pin = NoPin THEN <<FALSE, "none">>
-    ELSE IF HeadPage(r) = NoGroup THEN <<FALSE, "none">>        \* groups.get("page","") = ""
+    ELSE IF HeadPage(r) \in {NoGroup, NonNumeric} THEN <<FALSE, "none">>   \* groups.get("page","") not all digits
     ELSE IF c.pin = BadPin THEN <<TRUE, "none">>
     ELSE <<c.pin < HeadPage(r) \/ c.pin > HeadPage(r) + M, "none">>
 
@@ -137,7 +139,7 @@ Candidates(c) ==
       [] c.k = "id" -> IF last = NoRes THEN {}
                        ELSE IF HeadPage(last) = NoPage THEN {}
                        ELSE IF c.pin = NoPin THEN {last}
-                       ELSE IF HeadPage(last) = NoGroup THEN {last}
+                       ELSE IF HeadPage(last) \in {NoGroup, NonNumeric} THEN {last}
                        ELSE IF c.pin = BadPin THEN {}
                        ELSE IF c.pin < HeadPage(last) \/ c.pin > HeadPage(last) + M THEN {}
                        ELSE {last}
